@@ -34,24 +34,24 @@ func verifAssert(label string, c bool) {
 //@   assigns nothing
 
 //@ func TxHeaderFromProto
-//@   ensures nonnil: r0 != nil
+//@   ensures nonnil: hdr != nil ==> r0 != nil
 //@   assigns nothing
 
 //@ func InclusionProofFromProto
-//@   ensures nonnil: r0 != nil
+//@   ensures nonnil: iproof != nil ==> r0 != nil
 //@   assigns nothing
 
 //@ func LinearProofFromProto
-//@   ensures nonnil: r0 != nil
+//@   ensures nonnil: lproof != nil ==> r0 != nil
 //@   assigns nothing
 
 //@ func LinearAdvanceProofFromProto
 //@   assigns nothing
 
 //@ func DualProofFromProto
-//@   ensures nonnil: r0 != nil
+//@   ensures nonnil: dproof != nil ==> r0 != nil
 //@   assigns nothing
 
 //@ func DualProofV2FromProto
-//@   ensures nonnil: r0 != nil
+//@   ensures nonnil: dproof != nil ==> r0 != nil
 //@   assigns nothing
